@@ -187,6 +187,7 @@ func (c *Ctx) execInstr(in ssa.Instruction, st *State) {
 		}
 		c.vals[x] = v
 		c.closures[x] = ci
+		c.capturedObligations(x, ci, st)
 		// the function a closure value was made from is a property of the value (spec: boundTo)
 		_, cshort, _ := fnIDs(ci.fn)
 		c.declareFun("closurefn", []string{"Int"}, "Int")
@@ -1309,3 +1310,72 @@ func allocWrittenOnce(a *ssa.Alloc) bool {
 // from every reference a call returned earlier (off by default: it adds integer facts to
 // every query of the function)
 func (c *Ctx) freshAllocOpt() bool { return c.con != nil && c.con.Opts["freshalloc"] == "true" }
+
+// capturedObligations: a closure's `captured` clauses (facts about the variables it captures
+// by value, assumed on its entry) are demanded where the closure is made.
+func (c *Ctx) capturedObligations(x *ssa.MakeClosure, ci *closureInfo, st *State) {
+	key, cshort, _ := fnIDs(ci.fn)
+	con := c.P.CS.Funcs[key]
+	if con == nil || len(con.Captured) == 0 {
+		return
+	}
+	env := &Env{c: c, names: map[string]*Val{}, st: st, old: c.entry, pkgPath: fnPkgPath(c.fn)}
+	for i, fv := range ci.fn.FreeVars {
+		if i >= len(x.Bindings) {
+			break
+		}
+		// go/ssa captures every variable by reference; the clause may name a variable whose
+		// cell is written once, before the closure is made, and only read afterwards: its
+		// content here is the content the closure will see
+		pt, ok := fv.Type().Underlying().(*types.Pointer)
+		if !ok || !stableFreeVar(ci.fn, fv) {
+			continue
+		}
+		if al, cell := x.Bindings[i].(*ssa.Alloc); cell && !storedBefore(al, x) {
+			continue
+		}
+		env.names[fv.Name()] = c.load(ci.bind[i], pt.Elem(), st)
+	}
+	for i, r := range con.Captured {
+		label := r.Label
+		if label == "" {
+			label = fmt.Sprint(i + 1)
+		}
+		cond := c.evalBool(r.E, env, "captured clause of "+cshort)
+		o := c.addObl("G", fmt.Sprintf("%s.closure[%s].captured[%s]", c.fnName(), cshort, label), cond, r.Src)
+		if len(r.Props) > 0 {
+			o.Props = append(append([]string{}, c.props...), r.Props...)
+		} else {
+			o.Props = append(append([]string{}, c.props...), con.Props...)
+		}
+	}
+}
+
+// storedBefore: the only store to the cell (if any) dominates the instruction.
+func storedBefore(al *ssa.Alloc, at ssa.Instruction) bool {
+	refs := al.Referrers()
+	if refs == nil {
+		return false
+	}
+	for _, r := range *refs {
+		stx, ok := r.(*ssa.Store)
+		if !ok || stx.Addr != ssa.Value(al) {
+			continue
+		}
+		if stx.Block() == at.Block() {
+			for _, in := range stx.Block().Instrs {
+				if in == ssa.Instruction(stx) {
+					break
+				}
+				if in == at {
+					return false
+				}
+			}
+			continue
+		}
+		if !stx.Block().Dominates(at.Block()) {
+			return false
+		}
+	}
+	return true
+}
